@@ -148,7 +148,7 @@ func refOptions(menu func(kind string) []refEdge, n int, dangling bool) (out []r
 }
 
 func newRefFam(tier string) *refFam {
-	f := &refFam{batch: 64}
+	f := &refFam{batch: 16} // small units: under a defect that kills the worker on every cycle, a unit costs one worker per cyclic graph
 	all := allRefEdges()
 	full := func(string) []refEdge { return all }
 	natural := func(k string) []refEdge { return naturalEdges[k] }
